@@ -10,6 +10,7 @@ Layering as for C17: the reader is correct on every archive that shows the decla
 the conclusion of property C01, which enters as the named hypothesis `BinRoundTrip`.
 -/
 import MilaModel.Lemmas.AssetBuild
+import MilaModel.Lemmas.ComposeAsset
 import MilaModel.Spec.Asset
 
 namespace Mila.Props.C18
@@ -443,5 +444,97 @@ example : normalizeBinary sample ≠ sample := by decide +kernel
 
 example : Spec.Asset.dataSize (sample.specs.map (fun s => (s.strs, s.vals))) = 4 + (8 + 4 + 4 * 5) + (4 + 4) + 4 := by
   decide +kernel
+
+/-! ### composition with C01: the hypothesis `hC01` discharged
+
+`BinRoundTrip c a` is a theorem for every archive `serialize` builds: the built archive is in C01's
+quantifier (one string per 4-aligned cell inside the data; no pointers, pending c-strings or
+labels: `Compose.tidy_asset_build` + `build_layout`), so `C01.parse_serialize` applies.  What
+remains are the property's own domain hypotheses: the codec is faithful on `D`, every name and
+optional string of every spec is in `D` (`Compose.AssetStrsIn`), the shapes (`WF`), and the 32-bit
+format's size limit on the image (`Ser.imageSize`). -/
+
+/-- **C01 instantiated**: the bin-archive round trip holds of every archive `serialize` builds. -/
+theorem asset_bin_roundtrip (c : Codec) (D : Str → Prop) (hf : c.Faithful D) (v : AssetBinary)
+    (h : WF v) (hD : Compose.AssetStrsIn D v) :
+    ∀ a, build v = .ok a → Ser.imageSize c a < 2 ^ 32 → BinRoundTrip c a := by
+  intro a ha small
+  obtain ⟨ht, hp⟩ := Compose.asset_build_tidy_plain v h.wf.2 (small_cells h) hD ha
+  exact ht.binRoundTrip hp c hf small
+
+/-- `serialize` succeeds on the whole domain, with an image of the prescribed size. -/
+theorem asset_serialize_ok (c : Codec) (D : Str → Prop) (hf : c.Faithful D) (v : AssetBinary)
+    (h : WF v) (hD : Compose.AssetStrsIn D v)
+    (small : ∀ a, build v = .ok a → Ser.imageSize c a < 2 ^ 32) :
+    ∃ a bytes, build v = .ok a ∧ Asset.serialize c v = .ok bytes ∧
+      bytes.length = Ser.imageSize c a := by
+  obtain ⟨a, ha⟩ := asset_build_ok v h
+  obtain ⟨ht, hp⟩ := Compose.asset_build_tidy_plain v h.wf.2 (small_cells h) hD ha
+  obtain ⟨bytes, hs, hl⟩ := ht.serialize_ok hp c hf (small a ha)
+  refine ⟨a, bytes, ha, ?_, hl⟩
+  unfold Asset.serialize
+  rw [ha]; exact hs
+
+/-- **File-level round trip, unconditional**: `serialize` succeeds and
+`from_archive(from_bytes(serialize(v)))` is `v` with its unused typed fields at their default. -/
+theorem asset_file_roundtrip_unconditional (c : Codec) (D : Str → Prop) (hf : c.Faithful D)
+    (v : AssetBinary) (h : WF v) (hD : Compose.AssetStrsIn D v)
+    (small : ∀ a, build v = .ok a → Ser.imageSize c a < 2 ^ 32) :
+    ∃ bytes b, Asset.serialize c v = .ok bytes ∧ BinArchive.parse c .little bytes = .ok b ∧
+      fromArchive b = .ok (normalizeBinary v) := by
+  obtain ⟨_, bytes, _, hs, _⟩ := asset_serialize_ok c D hf v h hD small
+  obtain ⟨b, hb, hfa⟩ := asset_file_roundtrip c v h
+    (fun a ha => asset_bin_roundtrip c D hf v h hD a ha (small a ha)) bytes hs
+  exact ⟨bytes, b, hs, hb, hfa⟩
+
+/-- **Idempotence, unconditional**: re-serialising the value re-read from the serialised file gives
+the same bytes. -/
+theorem asset_idempotent_unconditional (c : Codec) (D : Str → Prop) (hf : c.Faithful D)
+    (v : AssetBinary) (h : WF v) (hD : Compose.AssetStrsIn D v)
+    (small : ∀ a, build v = .ok a → Ser.imageSize c a < 2 ^ 32) :
+    ∃ bytes b v', Asset.serialize c v = .ok bytes ∧ BinArchive.parse c .little bytes = .ok b ∧
+      fromArchive b = .ok v' ∧ Asset.serialize c v' = .ok bytes := by
+  obtain ⟨_, bytes, _, hs, _⟩ := asset_serialize_ok c D hf v h hD small
+  obtain ⟨b, v', hb, hfa, hs'⟩ := asset_idempotent c v h
+    (fun a ha => asset_bin_roundtrip c D hf v h hD a ha (small a ha)) bytes hs
+  exact ⟨bytes, b, v', hs, hb, hfa, hs'⟩
+
+/-- Non-vacuity of the composed theorems: the identity codec is faithful on NUL-free strings and
+every string of `sample` is NUL-free. -/
+example : (⟨fun s => some s, id⟩ : Codec).Faithful (fun s => (0 : UInt8) ∉ s) ∧
+    Compose.AssetStrsIn (fun s => (0 : UInt8) ∉ s) sample := by
+  refine ⟨fun s hs => ⟨s, rfl, hs, rfl⟩, ?_⟩
+  intro spec hspec
+  simp only [sample, List.mem_cons, List.mem_nil_iff, or_false] at hspec
+  rcases hspec with rfl | rfl
+  · refine ⟨fun s hs => (by cases hs; decide), fun s hs => ?_⟩
+    simp only [List.mem_cons, List.mem_append, List.mem_replicate, List.mem_nil_iff, or_false,
+      Option.some.injEq, reduceCtorEq, and_false, false_or, or_false] at hs
+    rcases hs with rfl | rfl <;> decide
+  · refine ⟨fun s hs => (by cases hs), fun s hs => ?_⟩
+    simp only [List.mem_replicate] at hs
+    cases hs.2
+
+/-- All hypotheses of the composed theorems together, the size limit included, hold of a concrete
+binary (one short record with a name) over the identity codec; the image size is evaluated in the
+kernel. -/
+example :
+    let c : Codec := ⟨fun s => some s, id⟩
+    let D : Str → Prop := fun s => (0 : UInt8) ∉ s
+    let v : AssetBinary := ⟨7, [⟨some (bs ['n']), List.replicate 33 none, List.replicate 18 (false, zero4)⟩]⟩
+    c.Faithful D ∧ WF v ∧ Compose.AssetStrsIn D v ∧
+      ∀ a, build v = .ok a → Ser.imageSize c a < 2 ^ 32 := by
+  refine ⟨fun s hs => ⟨s, rfl, hs, rfl⟩, ⟨by decide +kernel, by decide +kernel⟩, ?_, ?_⟩
+  · intro spec hspec
+    simp only [List.mem_singleton] at hspec
+    subst hspec
+    refine ⟨fun s hs => (by cases hs; decide), fun s hs => ?_⟩
+    simp only [List.mem_replicate] at hs; cases hs.2
+  · intro a ha
+    have h : (match build ⟨7, [⟨some (bs ['n']), List.replicate 33 none, List.replicate 18 (false, zero4)⟩]⟩ with
+        | .ok a => decide (Ser.imageSize ⟨fun s => some s, id⟩ a < 2 ^ 32)
+        | _ => false) = true := by decide +kernel
+    rw [ha] at h
+    simpa using h
 
 end Mila.Props.C18
